@@ -354,6 +354,75 @@ func refAttributes(u *sim.User) []refAttr {
 	return out
 }
 
+// keyNoValues identifies an attribute without its value list.
+func (a refAttr) keyNoValues() string { return fmt.Sprintf("%q|%q|%q", a.Name, a.Format, a.Friendly) }
+
+// queryFilterDiff compares the attributes of an attribute-query answer with the reference filter: exactly those of
+// the user's attributes whose Name and NameFormat match a requested attribute (all when none was requested), as
+// sets. When the query names AttributeValue children the value lists are not compared (a provider may or may not
+// restrict the values, the statement speaks about attributes).
+func queryFilterDiff(ref []refAttr, asked []spsim.QAttr, got []refAttr) (diff string, excluded bool) {
+	withValues := false
+	for _, qa := range asked {
+		if len(qa.Values) > 0 {
+			withValues = true
+		}
+	}
+	k := func(a refAttr) string {
+		if withValues {
+			return a.keyNoValues()
+		}
+		return a.key()
+	}
+	want, have := map[string]bool{}, map[string]bool{}
+	for _, a := range ref {
+		if len(asked) == 0 {
+			want[k(a)] = true
+			continue
+		}
+		for _, qa := range asked {
+			if qa.Name == a.Name && qa.NameFormat == a.Format {
+				want[k(a)] = true
+			}
+		}
+	}
+	for _, a := range got {
+		have[k(a)] = true
+	}
+	return setDiff(want, have), len(want) < len(ref)
+}
+
+// askForSomeValues appends a designator for one of the user's multi-valued custom attributes that names only some
+// of its values, not a prefix of the stored list.
+func askForSomeValues(rng *rand.Rand, q *spsim.AttrQuery, u *sim.User) bool {
+	for _, i := range rng.Perm(len(u.Custom)) {
+		c := u.Custom[i]
+		if len(c.Values) >= 2 && c.Name != "" {
+			q.Attrs = append(q.Attrs, spsim.QAttr{Name: c.Name, NameFormat: c.Format, Values: []string{c.Values[len(c.Values)-1]}})
+			return true
+		}
+	}
+	return false
+}
+
+// setDiffList compares two sorted key lists as multisets.
+func setDiffList(want, got []string) string {
+	if equalStrings(want, got) {
+		return ""
+	}
+	w, g := map[string]bool{}, map[string]bool{}
+	for _, k := range want {
+		w[k] = true
+	}
+	for _, k := range got {
+		g[k] = true
+	}
+	if d := setDiff(w, g); d != "" {
+		return d
+	}
+	return fmt.Sprintf("multiplicities differ: want %d attributes, got %d", len(want), len(got))
+}
+
 func attrMultiset(as []refAttr) []string {
 	var ks []string
 	for _, a := range as {
